@@ -40,11 +40,41 @@ def run_corpus(pid, model):
     return {'failures': fails, 'mismatches': mism, 'coverage': {'corpus_programs': n, 'corpus_ops': ops_n}}
 
 
+def _pool_programs(seed, n):
+    """a mixed bag: a few histories of every directed generator of every property (state zoo, reset races, closed
+    connections, bodies, settings walks, id reuse, priority shapes, origins, refused calls, floods, limits, chunked
+    traffic, upgrades, block boundaries).  Every check runs the bag under its own oracle and projection: a state that
+    one property's generator reaches is a state every property has to hold in."""
+    import itertools
+    gens = [lambda s_, k_: _zoo_programs(s_, k_, {}), _reset_race_programs, _closed_conn_programs,
+            lambda s_, k_: _closed_conn_programs(s_, k_, close=False), _body_programs, _settings_walk_programs, _id_reuse_programs,
+            _priority_shape_programs, _altsvc_origin_programs, _altsvc_send_programs, _refused_headers_programs, _orphan_id_programs, _refused_push_programs, _ping_flood_programs,
+            _after_limit_programs, _chunked_traffic_programs, _upgrade_value_programs, _boundary_programs]
+    per = max(1, n // len(gens))
+    for gi, g in enumerate(gens):
+        try:
+            it = g(seed * 131 + 17 + gi, per)
+        except TypeError:
+            continue
+        for key, ops in itertools.islice(it, per):
+            yield 'pool-%d-%s' % (gi, key), ops
+
+
+# properties whose oracle reads annotations or whole-run structure that only their own programs carry
+_NO_POOL = {'C21', 'C28'}
+
+
 def run(pid, seed, tier, model, deadline):
     res = run_corpus(pid, model)
     f = globals().get('special_' + pid)
     if f:
         more = f(seed, tier, model, deadline) or {}
+        res['failures'] += more.get('failures', [])
+        res['mismatches'] += more.get('mismatches', [])
+        res['coverage'].update(more.get('coverage') or {})
+    if pid not in _NO_POOL:
+        from oracles import ORACLES
+        more = _run_directed(pid, ORACLES.get(pid), _pool_programs, 'pool')(seed, tier, model, deadline, 160, 1600)
         res['failures'] += more.get('failures', [])
         res['mismatches'] += more.get('mismatches', [])
         res['coverage'].update(more.get('coverage') or {})
@@ -574,9 +604,15 @@ def _run_zoo(pid, oracle, seed, tier, model, deadline, quick_n):
 
 
 def special_C29(seed, tier, model, deadline):
-    """the state zoo (see _zoo_programs) judged by oracle_C29"""
+    """the state zoo (see _zoo_programs), then a server's advertise_alternative_service calls in every shape with field
+    values at the frame-size boundary (see _altsvc_send_programs), judged by oracle_C29"""
     from oracles import oracle_C29
-    return _run_zoo('C29', oracle_C29, seed, tier, model, deadline, 300)
+    a = _run_zoo('C29', oracle_C29, seed, tier, model, deadline, 300)
+    b = _run_directed('C29', oracle_C29, _altsvc_send_programs, 'altsvc_send')(seed, tier, model, deadline, 80)
+    a['failures'] += b['failures']
+    a['mismatches'] += b['mismatches']
+    a['coverage'].update(b.get('coverage') or {})
+    return a
 
 
 def special_C02(seed, tier, model, deadline):
@@ -587,10 +623,23 @@ def special_C02(seed, tier, model, deadline):
     return _run_zoo('C02', oracle_C02, seed, tier, model, deadline, 300)
 
 
-def mutate_block(rng, base, kind):
+_WS_FORMS = [(w, where) for w in (b' ', b'\t', b'\n', b'\r', b'\x0b', b'\x0c', b'\r\n', b'  ')
+             for where in ('name-lead', 'name-trail', 'value-lead', 'value-trail', 'value-only')]
+
+
+def mutate_block(rng, base, kind, force_ws=None):
     """a header block for `kind`, derived from a conformant base by 0..3 rule-breaking (or harmless) edits; list of
-    (name, value) bytes pairs"""
+    (name, value) bytes pairs.  force_ws = (whitespace bytes, position): exactly that one edit, on a regular field if
+    there is one (the systematic pass over every whitespace character in every position)"""
     hs = list(base)
+    if force_ws is not None:
+        w, where = force_ws
+        regular = [i for i, h in enumerate(hs) if not h[0].startswith(b':')]
+        at = rng.choice(regular) if regular and rng.random() < 0.7 else rng.randrange(len(hs))
+        n, v = hs[at]
+        hs[at] = {'name-lead': (w + n, v), 'name-trail': (n + w, v), 'value-lead': (n, w + v), 'value-trail': (n, v + w),
+                  'value-only': (n, w)}[where]
+        return hs
     if rng.random() < 0.4:
         # conformant variation: the pseudo-header fields in another order
         ps = [h for h in hs if h[0].startswith(b':')]
@@ -696,6 +745,10 @@ def special_C15(seed, tier, model, deadline):
             break
         rng = random.Random((seed * 15485863 + k) & 0xFFFFFFFF)
         kind = rng.choice(['request', 'request', 'response', 'informational', 'trailers', 'push'])
+        # the systematic pass first: every whitespace character in every position, the block kinds in turn
+        fw = _WS_FORMS[k % len(_WS_FORMS)] if k < 2 * len(_WS_FORMS) else None
+        if fw is not None:
+            kind = ['request', 'response', 'trailers', 'push', 'informational'][(k // len(_WS_FORMS) + k) % 5]
         vi = 0 if rng.random() < 0.15 else 1
         ni = 0 if rng.random() < 0.3 else 1
         enc = rng.choice([None, None, 'utf-8'])
@@ -704,20 +757,20 @@ def special_C15(seed, tier, model, deadline):
                {'op': 'initiate_connection', 'c': 0},
                {'op': 'recv', 'c': 0, 'data': (b'' if client else wire.PREFACE) + wire.settings_frame([]) + wire.settings_frame(ack=True)}]
         if kind == 'request':
-            hs = mutate_block(rng, rng.choice([REQ, REQ, POST, CONNECT, HOSTED]), kind)
+            hs = mutate_block(rng, rng.choice([REQ, REQ, POST, CONNECT, HOSTED]), kind, fw)
             ops.append({'op': 'recv', 'c': 0, 'data': wire.headers_frames(1, blk(hs), end_stream=rng.random() < 0.5)})
         elif kind == 'response':
-            hs = mutate_block(rng, RESP, kind)
+            hs = mutate_block(rng, RESP, kind, fw)
             ops.append({'op': 'send_headers', 'c': 0, 'sid': 1, 'headers': [(n, v, False) for n, v in REQ], 'es': True})
             ops.append({'op': 'recv', 'c': 0, 'data': wire.headers_frames(1, blk(hs), end_stream=rng.random() < 0.5)})
         elif kind == 'informational':
-            hs = mutate_block(rng, INFO, kind)
+            hs = mutate_block(rng, INFO + [(b'link', b'</a>')], kind, fw) if fw else mutate_block(rng, INFO, kind)
             if not any(n == b':status' and v[:1] == b'1' for n, v in hs[:1]):
                 kind = 'response'       # without a leading 1xx :status the library (rightly) reads the block as a response
             ops.append({'op': 'send_headers', 'c': 0, 'sid': 1, 'headers': [(n, v, False) for n, v in REQ], 'es': True})
             ops.append({'op': 'recv', 'c': 0, 'data': wire.headers_frames(1, blk(hs), end_stream=False)})
         elif kind == 'trailers':
-            hs = mutate_block(rng, TRAIL, kind)
+            hs = mutate_block(rng, TRAIL, kind, fw)
             if client:
                 ops.append({'op': 'send_headers', 'c': 0, 'sid': 1, 'headers': [(n, v, False) for n, v in REQ], 'es': True})
                 ops.append({'op': 'recv', 'c': 0, 'data': wire.headers_frames(1, blk(RESP), end_stream=False)})
@@ -725,7 +778,7 @@ def special_C15(seed, tier, model, deadline):
                 ops.append({'op': 'recv', 'c': 0, 'data': wire.headers_frames(1, blk(POST), end_stream=False)})
             ops.append({'op': 'recv', 'c': 0, 'data': wire.headers_frames(1, blk(hs), end_stream=True)})
         else:
-            hs = mutate_block(rng, rng.choice([REQ, REQ, HOSTED]), kind)
+            hs = mutate_block(rng, rng.choice([REQ, REQ, HOSTED]), kind, fw)
             ops.append({'op': 'send_headers', 'c': 0, 'sid': 1, 'headers': [(n, v, False) for n, v in REQ], 'es': False})
             ops.append({'op': 'recv', 'c': 0, 'data': wire.push_promise_frames(1, 2, blk(hs))})
         # blocks whose type the library decides differently from the position are left to the soundness clauses
@@ -1023,6 +1076,9 @@ def _body_programs(seed, n):
                 for _ in range(rng2.choice([1, 1, 2])):
                     ops.append({'op': 'recv', 'c': 0, 'data': wire.headers_frames(1, blk([(b':status', rng2.choice([b'100', b'103'])), (b'content-length', icl)]))})
             status = rng.choice([b'200', b'200', b'204', b'304', b'404', b'2xx', b'abc', b'', b'\xff\xfe', b'20', b'2000', b'+200', b' 200'])
+            if rng3.random() < 0.3:
+                # every class of status, the ones around the no-content ones in particular
+                status = rng3.choice([b'201', b'202', b'203', b'205', b'206', b'207', b'300', b'301', b'303', b'305', b'307', b'400', b'416', b'500', b'503', b'599', b'199'])
             first = [(b':status', status)] + extra
         else:
             method = rng.choice([b'GET', b'POST', b'POST', b'HEAD', b'PUT'])
@@ -1258,7 +1314,7 @@ def _reset_race_programs(seed, n):
                 # the victim is a pushed stream, reset while still reserved: the pushed response races the reset
                 victim = 2 + 2 * (limit or 0)
                 ops.append({'op': 'recv', 'c': 0, 'data': wire.push_promise_frames(1, victim, blk([(b':method', b'GET'), (b':scheme', b'https'), (b':path', b'/v'), (b':authority', b'x')]))})
-                racing = [wire.headers_frames(victim, RESP), wire.data_frame(victim, b'late' * rng.randrange(0, 50), end_stream=rng.random() < 0.5),
+                racing = [wire.headers_frames(victim, RESP), wire.data_frame(victim, b'late' * rng.choice([0, 0, 1, 7, 49]), pad=rng.choice([None, None, 0, 17, 255]), end_stream=rng.random() < 0.5),
                           wire.rst_stream(victim, 0)]
             elif shape == 'push-on-reset':
                 # the peer promises streams on the request stream we are about to reset; its next header block uses what the
@@ -1273,7 +1329,7 @@ def _reset_race_programs(seed, n):
                     ops.append({'op': 'recv', 'c': 0, 'data': wire.data_frame(victim, b'1234')})
                 racing = [wire.data_frame(victim, b'56'), wire.headers_frames(victim, TRAIL, end_stream=True)]
             else:
-                racing = [wire.headers_frames(victim, RESP, end_stream=rng.random() < 0.5), wire.data_frame(victim, b'late' * rng.randrange(0, 50)),
+                racing = [wire.headers_frames(victim, RESP, end_stream=rng.random() < 0.5), wire.data_frame(victim, b'late' * rng.choice([0, 0, 1, 7, 49]), pad=rng.choice([None, None, 0, 17, 255])),
                           wire.window_update(victim, rng.randrange(1, 1000)), wire.rst_stream(victim, rng.choice([0, 5, 8]))]
             alive = wire.headers_frames(1, RESP, end_stream=True)
         else:
@@ -1285,7 +1341,7 @@ def _reset_race_programs(seed, n):
                     ops.append({'op': 'recv', 'c': 0, 'data': wire.data_frame(victim, b'1234')})
                 racing = [wire.data_frame(victim, b'56'), wire.headers_frames(victim, TRAIL, end_stream=True)]
             else:
-                racing = [wire.headers_frames(victim, TRAIL, end_stream=True), wire.data_frame(victim, b'late' * rng.randrange(0, 50)),
+                racing = [wire.headers_frames(victim, TRAIL, end_stream=True), wire.data_frame(victim, b'late' * rng.choice([0, 0, 1, 7, 49]), pad=rng.choice([None, None, 0, 17, 255])),
                           wire.window_update(victim, rng.randrange(1, 1000)), wire.rst_stream(victim, rng.choice([0, 5, 8]))]
             alive = wire.ping(b'12345678')
         ops.append({'op': 'reset_stream', 'c': 0, 'sid': victim, 'code': rng.choice([0, 8, 11])})
@@ -1323,7 +1379,7 @@ def special_C20(seed, tier, model, deadline):
 # ---------------------------------------------------------------------------
 # C19: a closed connection stays quiet
 # ---------------------------------------------------------------------------
-def _closed_conn_programs(seed, n):
+def _closed_conn_programs(seed, n, close=True):
     """streams in every final situation (open, ended, reset by us, reset by the peer; still in the table or cleaned out
     of it), then the connection is closed by one of the three routes (close_connection, a received GOAWAY, a connection
     error), then frames of every type arrive for every kind of stream id (0, live, closed, forgotten, never used) —
@@ -1361,11 +1417,36 @@ def _closed_conn_programs(seed, n):
                 else:
                     ops.append({'op': 'send_headers', 'c': 0, 'sid': sid, 'headers': [(b':status', b'200', False)], 'es': True})
                     ops.append({'op': 'recv', 'c': 0, 'data': wire.data_frame(sid, b'', end_stream=True)})
+        pushed = []
+        if rng.random() < 0.5:
+            # pushed streams (promised on a request that can still carry a promise), each with a fate of its own
+            parents = [x for x in sids if fate[x] == 'open']
+            for promised in (2, 4):
+                if not parents:
+                    break
+                pushed.append(promised)
+                parent = rng.choice(parents)
+                pf = rng.choice(['reserved', 'reset-local', 'reset-peer', 'ended', 'ended'])
+                if client:
+                    ops.append({'op': 'recv', 'c': 0, 'data': wire.push_promise_frames(parent, promised, REQB)})
+                else:
+                    ops.append({'op': 'push_stream', 'c': 0, 'sid': parent, 'promised': promised, 'headers': REQ})
+                if pf == 'reset-local':
+                    ops.append({'op': 'reset_stream', 'c': 0, 'sid': promised, 'code': rng.choice([0, 7, 8])})
+                elif pf == 'reset-peer':
+                    ops.append({'op': 'recv', 'c': 0, 'data': wire.rst_stream(promised, rng.choice([0, 7, 8]))})
+                elif pf == 'ended':
+                    if client:
+                        ops.append({'op': 'recv', 'c': 0, 'data': wire.headers_frames(promised, RESP, end_stream=True)})
+                    else:
+                        ops.append({'op': 'send_headers', 'c': 0, 'sid': promised, 'headers': [(b':status', b'200', False)], 'es': True})
         if rng.random() < 0.7:
             # closed streams leave the table when the open streams are counted
             ops.append({'op': 'q', 'c': 0, 'what': rng.choice(['open_out', 'open_in'])})
-        route = rng.choice(['close', 'goaway', 'error'])
-        if route == 'close':
+        route = rng.choice(['close', 'goaway', 'error']) if close else 'stay-open'
+        if route == 'stay-open':
+            pass
+        elif route == 'close':
             ops.append({'op': 'close_connection', 'c': 0, 'code': rng.choice([0, 1, 2])})
         elif route == 'goaway':
             ops.append({'op': 'recv', 'c': 0, 'data': wire.goaway(rng.choice([0, 7]), rng.choice([0, 1]))})
@@ -1374,10 +1455,10 @@ def _closed_conn_programs(seed, n):
                                                                  wire.frame(wire.SETTINGS, 0, 0, b'abc')])})
         if rng.random() < 0.5:
             ops.append({'op': 'data_to_send', 'c': 0, 'amount': None})
-        targets = [0] + sids + [9, 2, 4, 1001]
+        targets = [0] + sids + [9, 2, 4, 1001] + pushed + pushed
         for _ in range(rng.randrange(4, 12)):
             sid = rng.choice(targets)
-            kind = rng.choice(['continuation', 'continuation', 'data', 'headers', 'rst', 'window', 'priority', 'ping', 'settings', 'push', 'altsvc', 'goaway', 'call'])
+            kind = rng.choice(['continuation', 'continuation', 'data', 'headers', 'headers', 'rst', 'window', 'priority', 'ping', 'settings', 'push', 'altsvc', 'goaway', 'call'])
             if kind == 'continuation':
                 d = wire.frame(wire.CONTINUATION, rng.choice([0, 4]), sid, rng.choice([b'', RESP]))
             elif kind == 'data':
@@ -1387,7 +1468,7 @@ def _closed_conn_programs(seed, n):
             elif kind == 'rst':
                 d = wire.rst_stream(sid or 1, 0)
             elif kind == 'window':
-                d = wire.window_update(sid, rng.choice([1, 100]))
+                d = wire.window_update(sid, rng.choice([1, 100, 0x7FFFFFFF, 0x7FFFFFFF]))  # the largest one overruns any window: answered with RST_STREAM on a live connection
             elif kind == 'priority':
                 d = wire.priority(sid or 1, 0, 16)
             elif kind == 'ping':
@@ -1522,7 +1603,8 @@ def _refused_headers_programs(seed, n):
     for k in range(n):
         rng = random.Random((seed * 15485863 + k) & 0xFFFFFFFF)
         client = rng.random() < 0.35
-        ops = [{'op': 'new', 'c': 0, 'client': client, 'vo': 1, 'no': 1, 'vi': 1, 'ni': 1, 'enc': None},
+        rng4 = random.Random((seed * 611953 + k * 13 + 7) & 0xFFFFFFFF)
+        ops = [{'op': 'new', 'c': 0, 'client': client, 'vo': rng4.choice([1, 1, 0]), 'no': rng4.choice([1, 1, 0]), 'vi': 1, 'ni': 1, 'enc': None},
                {'op': 'initiate_connection', 'c': 0},
                {'op': 'recv', 'c': 0, 'data': (b'' if client else wire.PREFACE) + wire.settings_frame([]) + wire.settings_frame(ack=True)}]
         bad = rng.choice([
@@ -1564,6 +1646,18 @@ def _refused_headers_programs(seed, n):
                 target = 2
             follow_headers = OKH
         ops.append({'op': 'send_headers', 'c': 0, 'sid': target, 'headers': bad, 'es': rng.random() < 0.3})
+        if not client and rng4.random() < 0.35:
+            # the message in order (interim responses, the final response, a body), then header blocks that may not follow:
+            # another interim response (with and without END_STREAM), a second final response
+            for _ in range(rng4.randrange(0, 2)):
+                ops.append({'op': 'send_headers', 'c': 0, 'sid': target, 'headers': [(b':status', b'103', False)], 'es': False})
+            ops.append({'op': 'send_headers', 'c': 0, 'sid': target, 'headers': OKH, 'es': False})
+            if rng4.random() < 0.5:
+                ops.append({'op': 'send_data', 'c': 0, 'sid': target, 'data': b'body', 'es': False, 'pad': None})
+            for _ in range(rng4.randrange(1, 3)):
+                ops.append({'op': 'send_headers', 'c': 0, 'sid': target,
+                            'headers': rng4.choice([[(b':status', b'103', False)], [(b':status', b'100', False), (b'x', b'y', False)], OKH]),
+                            'es': rng4.random() < 0.6})
         for _ in range(rng.randrange(1, 5)):
             what = rng.choice(['data', 'data', 'end', 'trailers', 'headers', 'bad-again'])
             if what == 'data':
@@ -1618,6 +1712,14 @@ def _ping_flood_programs(seed, n):
                 elif drain == 'fully-sometimes' and rng.random() < 0.3:
                     ops.append({'op': 'data_to_send', 'c': 0, 'amount': None})
         ops.append({'op': 'ping', 'c': 0, 'data': b'\x00' * 8})
+        # our own PINGs: the same payload again and again, with and without the peer's ACK in between
+        mine = rng.choice([b'keepaliv', b'\x00' * 8, b'12345678'])
+        for _ in range(rng.randrange(1, 5)):
+            ops.append({'op': 'ping', 'c': 0, 'data': rng.choice([mine, mine, b'otherpay'])})
+            if rng.random() < 0.3:
+                ops.append({'op': 'recv', 'c': 0, 'data': wire.ping(mine, ack=True)})
+            if rng.random() < 0.3:
+                ops.append({'op': 'data_to_send', 'c': 0, 'amount': None})
         yield 'pings-%d' % k, ops
 
 
@@ -1689,10 +1791,71 @@ def _after_limit_programs(seed, n):
         yield 'limit-%d' % k, ops
 
 
+def _chunked_traffic_programs(seed, n):
+    """ordinary traffic (streams opened and reset, PRIORITY / RST_STREAM on idle streams, PINGs, unknown frame types, DATA)
+    cut into deliveries that end inside frame payloads, inside frame headers and on frame boundaries"""
+    import random
+    import wire
+    blk = wire.hpack_literal_block
+    REQB = blk([(b':method', b'GET'), (b':scheme', b'https'), (b':path', b'/'), (b':authority', b'x')])
+    for k in range(n):
+        rng = random.Random((seed * 982451653 + k) & 0xFFFFFFFF)
+        ops = [{'op': 'new', 'c': 0, 'client': False, 'vo': 1, 'no': 1, 'vi': 1, 'ni': 1, 'enc': None},
+               {'op': 'initiate_connection', 'c': 0},
+               {'op': 'recv', 'c': 0, 'data': wire.PREFACE + wire.settings_frame([]) + wire.settings_frame(ack=True)}]
+        stream = b''
+        sid = 1
+        for _ in range(rng.randrange(5, 40)):
+            kind = rng.choice(['open', 'open', 'ping', 'prio', 'rst-idle', 'ext', 'data'])
+            if kind == 'open':
+                stream += wire.headers_frames(sid, REQB, end_stream=rng.random() < 0.3)
+                if rng.random() < 0.7:
+                    stream += wire.rst_stream(sid, 8)
+                sid += 2
+            elif kind == 'ping':
+                stream += wire.ping(b'p' * 8)
+            elif kind == 'prio':
+                stream += wire.priority(sid + 100, 0, 16)
+            elif kind == 'rst-idle':
+                pass
+            elif kind == 'ext':
+                stream += wire.frame(0x42, 0, 0, b'e' * rng.choice([0, 5, 300]))
+            elif sid > 1:
+                stream += wire.data_frame(sid - 2, b'd' * rng.choice([0, 10, 2000]))
+        # cuts: mostly inside payloads (header complete, payload not)
+        pos = 0
+        frames = wire.split_frames(stream)
+        offs, o = [], 0
+        for f in frames:
+            offs.append((o, 9 + len(f['payload'])))
+            o += 9 + len(f['payload'])
+        cuts = set()
+        for (o, ln) in offs:
+            r = rng.random()
+            if r < 0.5 and ln > 10:
+                cuts.add(o + 9 + rng.randrange(1, ln - 9))       # inside the payload
+            elif r < 0.6:
+                cuts.add(o + rng.randrange(1, 9))                # inside the header
+            elif r < 0.7:
+                cuts.add(o + ln)                                 # on the boundary
+        prev = 0
+        for cpos in sorted(cuts) + [len(stream)]:
+            if cpos > prev:
+                ops.append({'op': 'recv', 'c': 0, 'data': stream[prev:cpos]})
+                prev = cpos
+        yield 'chunks-%d' % k, ops
+
+
 def special_C27(seed, tier, model, deadline):
-    """histories that run into the two caps and go on (see _after_limit_programs) under oracle_C27"""
+    """histories that run into the two caps and go on (see _after_limit_programs), and traffic cut inside frame payloads
+    (see _chunked_traffic_programs), under oracle_C27"""
     from oracles import oracle_C27
-    return _run_directed('C27', oracle_C27, _after_limit_programs, 'after_limit')(seed, tier, model, deadline, 60, 1200)
+    res = _run_directed('C27', oracle_C27, _after_limit_programs, 'after_limit')(seed, tier, model, deadline, 60, 1200)
+    more = _run_directed('C27', oracle_C27, _chunked_traffic_programs, 'chunked_traffic')(seed, tier, model, deadline, 80, 1500)
+    res['failures'] += more['failures']
+    res['mismatches'] += more['mismatches']
+    res['coverage'].update(more['coverage'])
+    return res
 
 
 # ---------------------------------------------------------------------------
@@ -1805,7 +1968,317 @@ def _orphan_id_programs(seed, n):
         yield 'orphan-%d' % k, ops
 
 
+def _refused_push_programs(seed, n):
+    """a client whose request is in every final situation (reset by the application and still in the table, reset and
+    cleaned out of it, response ended while the request body is still going out, fully ended) receives a PUSH_PROMISE on
+    it — refused or accepted — and then HEADERS (request-shaped and response-shaped), DATA and trailers on the
+    promised id, inbound validation on and off"""
+    import random
+    import wire
+    blk = wire.hpack_literal_block
+    REQ = [(b':method', b'GET', False), (b':scheme', b'https', False), (b':path', b'/', False), (b':authority', b'x', False)]
+    REQB = blk([(h[0], h[1]) for h in REQ])
+    RESP = blk([(b':status', b'200')])
+    for k in range(n):
+        rng = random.Random((seed * 40503 + k * 7 + 3) & 0xFFFFFFFF)
+        ops = [{'op': 'new', 'c': 0, 'client': True, 'vo': 1, 'no': 1, 'vi': rng.choice([1, 1, 0]), 'ni': 1, 'enc': None},
+               {'op': 'initiate_connection', 'c': 0},
+               {'op': 'recv', 'c': 0, 'data': wire.settings_frame([]) + wire.settings_frame(ack=True)}]
+        fate = rng.choice(['reset', 'reset', 'reset-forgotten', 'resp-ended', 'ended', 'open'])
+        ops.append({'op': 'send_headers', 'c': 0, 'sid': 1, 'headers': REQ, 'es': fate in ('ended', 'reset') and rng.random() < 0.5})
+        if fate.startswith('reset'):
+            ops.append({'op': 'reset_stream', 'c': 0, 'sid': 1, 'code': rng.choice([0, 8])})
+            if fate == 'reset-forgotten':
+                ops.append({'op': 'q', 'c': 0, 'what': 'open_out'})
+        elif fate in ('resp-ended', 'ended'):
+            ops.append({'op': 'recv', 'c': 0, 'data': wire.headers_frames(1, RESP, end_stream=True)})
+            if fate == 'ended':
+                ops.append({'op': 'end_stream', 'c': 0, 'sid': 1})
+        promised = rng.choice([2, 2, 4])
+        ops.append({'op': 'recv', 'c': 0, 'data': wire.push_promise_frames(1, promised, REQB)})
+        if rng.random() < 0.3:
+            ops.append({'op': 'data_to_send', 'c': 0, 'amount': None})
+        for _ in range(rng.randrange(1, 4)):
+            kind = rng.choice(['req', 'req', 'resp', 'resp', 'data', 'trailers', 'wu'])
+            d = {'req': wire.headers_frames(promised, REQB, end_stream=rng.random() < 0.4),
+                 'resp': wire.headers_frames(promised, RESP, end_stream=rng.random() < 0.4),
+                 'data': wire.data_frame(promised, b'abc', end_stream=rng.random() < 0.3),
+                 'trailers': wire.headers_frames(promised, blk([(b'x-t', b'1')]), end_stream=True),
+                 'wu': wire.window_update(promised, 5)}[kind]
+            ops.append({'op': 'recv', 'c': 0, 'data': d})
+        yield 'refused-push-%d' % k, ops
+
+
+def _c07_programs(seed, n):
+    h = n // 2
+    for x in _orphan_id_programs(seed, n - h):
+        yield x
+    for x in _refused_push_programs(seed, h):
+        yield x
+
+
 def special_C07(seed, tier, model, deadline):
-    """peer frames on ids that refused calls did not use (see _orphan_id_programs) under oracle_C07"""
+    """peer frames on ids that refused calls did not use (see _orphan_id_programs) and on ids promised by pushes on
+    finished requests (see _refused_push_programs) under oracle_C07"""
     from oracles import oracle_C07
-    return _run_directed('C07', oracle_C07, _orphan_id_programs, 'orphan_id')(seed, tier, model, deadline, 250)
+    return _run_directed('C07', oracle_C07, _c07_programs, 'orphan_id')(seed, tier, model, deadline, 250)
+
+
+def special_C06(seed, tier, model, deadline):
+    """stray frames of every type for streams in every final situation, the connection still open (the histories of
+    _closed_conn_programs without the closing step) under oracle_C06"""
+    from oracles import oracle_C06
+    return _run_directed('C06', oracle_C06, lambda s_, n_: _closed_conn_programs(s_, n_, close=False), 'stray_frames')(seed, tier, model, deadline, 250)
+
+
+# ---------------------------------------------------------------------------
+# C23: priority information in every shape
+# ---------------------------------------------------------------------------
+def _priority_shape_programs(seed, n):
+    """received: PRIORITY frames and HEADERS frames with priority fields — in one frame, cut into CONTINUATION frames, padded
+    — on requests, responses and trailers, for idle, live and closed streams; sent: prioritize() and send_headers with
+    priority arguments (all defaults, boundaries, exclusive without a parent) with header blocks small and larger than a
+    frame"""
+    import random
+    import wire
+    blk = wire.hpack_literal_block
+    REQ = [(b':method', b'GET', False), (b':scheme', b'https', False), (b':path', b'/', False), (b':authority', b'x', False)]
+    for k in range(n):
+        rng = random.Random((seed * 472882027 + k) & 0xFFFFFFFF)
+        client = rng.random() < 0.5
+        ops = [{'op': 'new', 'c': 0, 'client': client, 'vo': 1, 'no': 1, 'vi': 1, 'ni': 1, 'enc': None},
+               {'op': 'initiate_connection', 'c': 0},
+               {'op': 'recv', 'c': 0, 'data': (b'' if client else wire.PREFACE) + wire.settings_frame([]) + wire.settings_frame(ack=True)}]
+        prio = lambda: (rng.choice([0, 0, 1, 3, 5, 7, 2147483647]), rng.choice([1, 16, 200, 256]), rng.random() < 0.5)
+        big = [(b'x-fill-%d' % j, b'v' * 3000) for j in range(rng.choice([0, 0, 7]))]
+        if client:
+            ops.append({'op': 'send_headers', 'c': 0, 'sid': 1, 'headers': REQ, 'es': False})
+            for _ in range(rng.randrange(1, 5)):
+                w = rng.choice(['prioritize', 'send'])
+                pw = rng.choice([None, 1, 16, 256]); pd = rng.choice([None, 0, 1, 3, 9]); pe = rng.choice([None, True, False])
+                if w == 'prioritize':
+                    ops.append({'op': 'prioritize', 'c': 0, 'sid': rng.choice([1, 3, 5, 9]), 'pw': pw, 'pd': pd, 'pe': pe})
+                else:
+                    sid = rng.choice([3, 5, 7])
+                    ops.append({'op': 'send_headers', 'c': 0, 'sid': sid, 'headers': REQ + [(a, b, False) for a, b in big],
+                                'es': rng.random() < 0.5, 'pw': pw, 'pd': pd, 'pe': pe})
+            # the response, with priority fields, in every shape
+            d, wgt, ex = prio()
+            ops.append({'op': 'recv', 'c': 0, 'data': wire.headers_frames(1, blk([(b':status', b'200')] + big), prio=(d if d != 1 else 3, wgt, ex),
+                                                                        max_frag=rng.choice([None, None, 5, 1000]), pad=rng.choice([None, None, 4]))})
+        else:
+            for sid in (1, 3):
+                d, wgt, ex = prio()
+                if d == sid:
+                    d = 0
+                block = blk([(h[0], h[1]) for h in REQ] + big)
+                ops.append({'op': 'recv', 'c': 0, 'data': wire.headers_frames(sid, block, end_stream=rng.random() < 0.3, prio=(d, wgt, ex),
+                                                                            max_frag=rng.choice([None, None, 7, 16384]), pad=rng.choice([None, None, 9]))})
+            for _ in range(rng.randrange(1, 5)):
+                sid = rng.choice([1, 3, 5, 99])
+                d, wgt, ex = prio()
+                ops.append({'op': 'recv', 'c': 0, 'data': wire.priority(sid, d if d != sid else 0, wgt, ex)})
+            if rng.random() < 0.5:
+                d, wgt, ex = prio()
+                ops.append({'op': 'recv', 'c': 0, 'data': wire.headers_frames(1, blk([(b'x-trailer', b'1')]), end_stream=True, prio=(d if d != 1 else 0, wgt, ex),
+                                                                            max_frag=rng.choice([None, 3]))})
+        if rng.random() < 0.25:
+            # last of all, a stream that depends on itself — by a PRIORITY frame or by the fields of a HEADERS frame, on a
+            # new, a live or a finished stream (a connection error either way)
+            d, wgt, ex = prio()
+            if ops[0]['client']:
+                sid = rng.choice([1, 1, 2])
+                block = blk([(b':status', b'200')])
+            else:
+                sid = rng.choice([1, 7, 7, 9])
+                block = blk([(h[0], h[1]) for h in REQ]) if sid > 3 else blk([(b'x-trailer', b'2')])
+            if rng.random() < 0.3:
+                ops.append({'op': 'recv', 'c': 0, 'data': wire.priority(sid, sid, wgt, ex)})
+            else:
+                ops.append({'op': 'recv', 'c': 0, 'data': wire.headers_frames(sid, block, end_stream=rng.random() < 0.5, prio=(sid, wgt, ex),
+                                                                            max_frag=rng.choice([None, None, 6]), pad=rng.choice([None, None, 3]))})
+        yield 'prio-%d' % k, ops
+
+
+def special_C23(seed, tier, model, deadline):
+    """priority information in every shape (see _priority_shape_programs) under oracle_C23"""
+    from oracles import oracle_C23
+    return _run_directed('C23', oracle_C23, _priority_shape_programs, 'priority_shapes')(seed, tier, model, deadline, 250)
+
+
+# ---------------------------------------------------------------------------
+# C24: whose origin a stream-bound ALTSVC speaks for
+# ---------------------------------------------------------------------------
+def _altsvc_origin_programs(seed, n):
+    """a client with requests for different authorities and promises for yet other ones (cross-origin pushes), then ALTSVC
+    frames on every stream at every moment of its life (reserved, open, after the response headers, closed) and on
+    stream 0, with and without an origin field"""
+    import random
+    import wire
+    blk = wire.hpack_literal_block
+    for k in range(n):
+        rng = random.Random((seed * 334214459 + k) & 0xFFFFFFFF)
+        ops = [{'op': 'new', 'c': 0, 'client': True, 'vo': 1, 'no': 1, 'vi': 1, 'ni': 1, 'enc': rng.choice([None, 'utf-8'])},
+               {'op': 'initiate_connection', 'c': 0},
+               {'op': 'recv', 'c': 0, 'data': wire.settings_frame([]) + wire.settings_frame(ack=True)}]
+        hosts = [b'www.example.com', b'static.example.net', b'api.example.org']
+        auth = {}
+        for sid in (1, 3):
+            a = rng.choice(hosts)
+            order = [(b':method', b'GET'), (b':scheme', b'https'), (b':authority', a), (b':path', b'/')]
+            if rng.random() < 0.3:
+                rng.shuffle(order)
+            ops.append({'op': 'send_headers', 'c': 0, 'sid': sid, 'headers': [(n_, v_, False) for n_, v_ in order], 'es': True})
+            auth[sid] = a
+        for p_ in (2, 4):
+            a = rng.choice(hosts)
+            parent = rng.choice([1, 3])
+            ops.append({'op': 'recv', 'c': 0, 'data': wire.push_promise_frames(parent, p_, blk([(b':method', b'GET'), (b':scheme', b'https'), (b':path', b'/p'), (b':authority', a)]))})
+            auth[p_] = a
+        for _ in range(rng.randrange(2, 8)):
+            sid = rng.choice([0, 1, 2, 3, 4, 4, 2])
+            what = rng.choice(['altsvc', 'altsvc', 'altsvc', 'response', 'end'])
+            if what == 'altsvc':
+                ops.append({'op': 'recv', 'c': 0, 'data': wire.altsvc(sid, rng.choice([b'', b'', b'other.example']) if sid else rng.choice([b'example.com', b'']), b'h2=":8443"')})
+            elif what == 'response' and sid:
+                ops.append({'op': 'recv', 'c': 0, 'data': wire.headers_frames(sid, blk([(b':status', b'200')]))})
+            elif sid:
+                ops.append({'op': 'recv', 'c': 0, 'data': wire.data_frame(sid, b'', end_stream=True)})
+        yield 'origin-%d' % k, ops
+
+
+def _altsvc_send_programs(seed, n):
+    """a server with requests at every moment of their life (just received, answered, ended, reset, forgotten) and a
+    pushed stream calls advertise_alternative_service with every combination of origin (absent, empty, a name, one
+    that fills the frame) and stream id (absent, 0, live, closed, unknown), the field value empty, ordinary and within
+    two bytes of what still fits the peer's frame size in either form"""
+    import random
+    import wire
+    blk = wire.hpack_literal_block
+    REQ = [(b':method', b'GET', False), (b':scheme', b'https', False), (b':path', b'/', False), (b':authority', b'x', False)]
+    REQB = blk([(h[0], h[1]) for h in REQ])
+    for k in range(n):
+        rng = random.Random((seed * 9176 + k * 13 + 5) & 0xFFFFFFFF)
+        limit = rng.choice([16384, 16384, 16384, 20000])
+        peer = [(5, limit)] if limit != 16384 else []
+        ops = [{'op': 'new', 'c': 0, 'client': False, 'vo': 1, 'no': 1, 'vi': 1, 'ni': 1, 'enc': None},
+               {'op': 'initiate_connection', 'c': 0},
+               {'op': 'recv', 'c': 0, 'data': wire.PREFACE + wire.settings_frame(peer) + wire.settings_frame(ack=True)}]
+        for sid in (1, 3, 5):
+            ops.append({'op': 'recv', 'c': 0, 'data': wire.headers_frames(sid, REQB, end_stream=rng.random() < 0.6)})
+        if rng.random() < 0.6:
+            ops.append({'op': 'push_stream', 'c': 0, 'sid': 1, 'promised': 2, 'headers': REQ})
+        fate = rng.choice(['fresh', 'fresh', 'answered', 'ended', 'reset', 'forgotten'])
+        if fate == 'answered':
+            ops.append({'op': 'send_headers', 'c': 0, 'sid': 3, 'headers': [(b':status', b'200', False)], 'es': False})
+        elif fate == 'ended':
+            ops.append({'op': 'send_headers', 'c': 0, 'sid': 3, 'headers': [(b':status', b'200', False)], 'es': True})
+        elif fate in ('reset', 'forgotten'):
+            ops.append({'op': 'reset_stream', 'c': 0, 'sid': 3, 'code': 0})
+            if fate == 'forgotten':
+                ops.append({'op': 'q', 'c': 0, 'what': 'open_in'})
+        for _ in range(rng.randrange(2, 6)):
+            origin = rng.choice([None, None, None, b'', b'example.com', b'o' * 300])
+            sid = rng.choice([None, None, 0, 1, 2, 3, 3, 5, 7, 9])
+            room = limit - 2 - (len(origin) if origin else 0)
+            field = rng.choice([b'h2=":443"; ma=60', b'', b'f' * max(0, room + rng.choice([-2, -1, 0, 0, 1, 2, 3])),
+                                b'f' * max(0, room + rng.choice([-1, 0, 1, 2]))])
+            ops.append({'op': 'altsvc', 'c': 0, 'field': field, 'origin': origin, 'sid': sid})
+            if rng.random() < 0.3:
+                ops.append({'op': 'data_to_send', 'c': 0, 'amount': None})
+        yield 'altsvc-send-%d' % k, ops
+
+
+def _c24_programs(seed, n):
+    h = n // 3
+    for x in _altsvc_origin_programs(seed, n - h):
+        yield x
+    for x in _altsvc_send_programs(seed, h):
+        yield x
+
+
+def special_C24(seed, tier, model, deadline):
+    """stream-bound ALTSVC on requests and cross-origin pushes (see _altsvc_origin_programs) and a server's
+    advertise_alternative_service calls in every shape (see _altsvc_send_programs) under oracle_C24"""
+    from oracles import oracle_C24
+    return _run_directed('C24', oracle_C24, _c24_programs, 'altsvc_origin')(seed, tier, model, deadline, 250)
+
+
+# ---------------------------------------------------------------------------
+# C25: every HTTP2-Settings value a client can produce
+# ---------------------------------------------------------------------------
+def _upgrade_value_programs(seed, n):
+    """a client whose application configured its initial settings with values from all over the legal ranges (so that the
+    base64url text of the HTTP2-Settings value runs through the whole alphabet, `-` and `_` included) upgrades; a fresh
+    server is handed exactly that value; then the first exchanges on stream 1 and the first new stream ids"""
+    import random
+    for k in range(n):
+        rng = random.Random((seed * 141650939 + k) & 0xFFFFFFFF)
+        def val(key):
+            r = rng.random()
+            lo, hi = {1: (0, 2**32 - 1), 2: (0, 1), 3: (0, 2**32 - 1), 4: (0, 2**31 - 1), 5: (16384, 2**24 - 1), 6: (0, 2**32 - 1), 8: (0, 1)}[key]
+            if r < 0.35:
+                return rng.randrange(lo, hi + 1)
+            if r < 0.7:
+                v = rng.randrange(lo, hi + 1)
+                v = v - (v % 64) + rng.choice([62, 63])          # the two base64 digits that differ between the alphabets
+                return min(max(v, lo), hi)
+            return rng.choice([lo, hi, min(hi, lo + 62), min(hi, 65534), min(hi, max(lo, 16382 + 16384))])
+        keys = rng.sample([1, 3, 4, 5, 6], rng.randrange(1, 5)) + ([2] if rng.random() < 0.3 else []) + ([8] if rng.random() < 0.2 else [])
+        ls = [(key, val(key)) for key in keys]
+        ops = [{'op': 'new', 'c': 0, 'client': True, 'vo': 1, 'no': 1, 'vi': 1, 'ni': 1, 'enc': None, 'ls': ls},
+               {'op': 'new', 'c': 1, 'client': False, 'vo': 1, 'no': 1, 'vi': 1, 'ni': 1, 'enc': None},
+               {'op': 'initiate_upgrade', 'c': 0, 'settings_header': None},
+               {'op': 'initiate_upgrade', 'c': 1, 'settings_header': '@0'},
+               {'op': 'xfer', 'c': 0, 'to': 1}, {'op': 'xfer', 'c': 1, 'to': 0},
+               {'op': 'q', 'c': 0, 'what': 'next_stream_id'}, {'op': 'q', 'c': 1, 'what': 'next_stream_id'},
+               {'op': 'send_headers', 'c': 1, 'sid': 1, 'headers': [(b':status', b'200', False)], 'es': rng.random() < 0.5},
+               {'op': 'xfer', 'c': 1, 'to': 0}]
+        yield 'upgrade-%d' % k, ops
+
+
+def special_C25(seed, tier, model, deadline):
+    """upgrades with HTTP2-Settings values from all over the legal ranges (see _upgrade_value_programs) under oracle_C25"""
+    from oracles import oracle_C25
+    return _run_directed('C25', oracle_C25, _upgrade_value_programs, 'upgrade_values')(seed, tier, model, deadline, 250)
+
+
+# ---------------------------------------------------------------------------
+# C12: every way a setting value reaches the library
+# ---------------------------------------------------------------------------
+def _upgrade_settings_programs(seed, n):
+    """a server's initiate_upgrade_connection with HTTP2-Settings values built from every setting at and around its
+    limits, known and unknown identifiers, alone and in lists (the first invalid one decides)"""
+    import base64
+    import random
+    import struct
+    VALUES = {1: [0, 4096, 2**32 - 1], 2: [0, 1, 2, 2**32 - 1], 3: [0, 100, 2**32 - 1], 4: [0, 65535, 2**31 - 1, 2**31, 2**32 - 1],
+              5: [0, 16383, 16384, 2**24 - 1, 2**24, 2**32 - 1], 6: [0, 2**32 - 1], 8: [0, 1, 2], 9: [7], 0x102: [5], 0x304: [2**31],
+              0xFF05: [0], 0x1008: [2], 0xFFFF: [2**32 - 1]}
+    for k in range(n):
+        rng = random.Random((seed * 735632791 + k) & 0xFFFFFFFF)
+        items = []
+        for _ in range(rng.choice([1, 1, 2, 3])):
+            key = rng.choice(sorted(VALUES))
+            items.append((key, rng.choice(VALUES[key])))
+        body = b''.join(struct.pack('>HI', a, b) for a, b in items)
+        hdr = base64.urlsafe_b64encode(body)
+        if rng.random() < 0.3:
+            hdr = hdr.rstrip(b'=')
+            hdr += b'=' * (-len(hdr) % 4)
+        ops = [{'op': 'new', 'c': 0, 'client': False, 'vo': 1, 'no': 1, 'vi': 1, 'ni': 1, 'enc': None},
+               {'op': 'initiate_upgrade', 'c': 0, 'settings_header': hdr},
+               {'op': 'data_to_send', 'c': 0, 'amount': None}]
+        yield 'upgrade-settings-%d' % k, ops
+
+
+def special_C12(seed, tier, model, deadline):
+    """setting values at and around every limit through received frames (walks, see _settings_walk_programs) and through
+    the HTTP2-Settings value of an upgrade (see _upgrade_settings_programs) under oracle_C12"""
+    from oracles import oracle_C12
+    res = _run_directed('C12', oracle_C12, _settings_walk_programs, 'settings_walk')(seed, tier, model, deadline, 150)
+    more = _run_directed('C12', oracle_C12, _upgrade_settings_programs, 'upgrade_settings')(seed, tier, model, deadline, 200)
+    res['failures'] += more['failures']
+    res['mismatches'] += more['mismatches']
+    res['coverage'].update(more['coverage'])
+    return res
